@@ -300,6 +300,7 @@ func newEnumerator(r *ev.Run, col *collector) *enumerator {
 		return fmt.Sprintf("scale k->k*%s+%d: %s", e.u.sc.Name, e.u.sc.E, seqString(append(e.lettersOf(e.u.startMvs), e.lettersOf(e.path)...)))
 	}
 	e.hc = newHandlerChecker(e.x.w, func(check, what string) { e.layer = "handlers"; e.fail(check, what); e.layer = "arithmetic" })
+	e.hc.x = e.x
 	return e
 }
 
@@ -395,6 +396,9 @@ func (e *enumerator) dfs(s *st, depth int, frontier *[][]*mv, frontierDepth int)
 		if !bad && depth < e.hDepth {
 			e.hTrans++
 			if !e.hc.check(s, m, ns, changed) {
+				bad = true
+			}
+			if !bad && m.op == opReward && !e.hc.checkRewardPaths(s, m.rate) {
 				bad = true
 			}
 		}
@@ -726,6 +730,9 @@ func replay(r *ev.Run) {
 		bad := e.x.bad
 		if !bad {
 			bad = !e.hc.check(s, m, ns, changed)
+			if !bad && m.op == opReward {
+				bad = !e.hc.checkRewardPaths(s, m.rate)
+			}
 		}
 		fmt.Printf("step %d %s -> %s%s\n", i+1, l.String(), ns.sn.String(), map[bool]string{true: "", false: " (unchanged)"}[changed])
 		if bad {
